@@ -1,5 +1,6 @@
-"""C08 — seeded generators: well-formed macro programs with adversarial spelling, programs outside the
-hypotheses of the hygiene theorem (one defect each), recursive macro tables."""
+"""C08 — seeded generators: well-formed macro programs with adversarial spelling (among them macro locals that are bound
+only through the arguments of nested invocations), programs outside the hypotheses of the hygiene theorem (one defect
+each), recursive macro tables, designed call patterns (around disjunctions; the two_hops family)."""
 import copy
 
 from . import dl
@@ -29,7 +30,8 @@ def tv(v):
 
 class BodyMacroGen:
     """one body-position macro; sig = list of parameter modes:
-       'io'  ident, used as a clause argument (binds or tests), afterwards usable in expressions
+       'io'  ident, used as a clause argument (binds or tests), afterwards usable in expressions; an enclosing macro may
+             pass a local of its own that nothing else binds (the nested invocation is then its only binder)
        'in'  ident, bound at the call site, usable in expressions from the start
        'new' ident, bound by a let / if let / for of the macro body; the call site passes an unused name
        'e'   expr, used as a whole clause / negation argument"""
